@@ -10,6 +10,7 @@ import (
 	"os"
 	"sort"
 	"strings"
+	"sync"
 	"testing"
 	"time"
 
@@ -28,6 +29,7 @@ type vSeq struct {
 	conns     []*MemWaiterServerProtocol
 	connIdx   map[*MemWaiterServerProtocol]int
 	replies   []vReply
+	rmu       sync.Mutex // guards replies / onReply (the reply callback may run on the engine's executor goroutine)
 	tq, eq    []*LockQueue
 	base      protocol.LockDBState
 	dir       string
@@ -86,9 +88,12 @@ func vNewSeq(nconn int, aofTime uint8) *vSeq {
 		v.connIdx[c] = i + 1
 		_ = c.SetResultCallback(func(p *MemWaiterServerProtocol, cmd *protocol.LockCommand, result uint8, lcount uint16, lrcount uint8, data []byte) error {
 			rp := vReply{conn: v.connIdx[p], req: vInt16(cmd.RequestId), result: int(result), lcount: int(lcount), lrcount: int(lrcount), lockId: vInt16(cmd.LockId), count: int(cmd.Count), rcount: int(cmd.Rcount), key: vInt16(cmd.LockKey), data: data}
+			v.rmu.Lock() // (flags of the excluded subset make the engine answer from its executor goroutine as well)
 			v.replies = append(v.replies, rp)
-			if v.onReply != nil {
-				v.onReply(rp)
+			cb := v.onReply
+			v.rmu.Unlock()
+			if cb != nil {
+				cb(rp)
 			}
 			return nil
 		})
@@ -172,6 +177,8 @@ func (o vOp) String() string {
 }
 
 func (v *vSeq) takeReplies() string {
+	v.rmu.Lock()
+	defer v.rmu.Unlock()
 	if len(v.replies) == 0 {
 		return "-"
 	}
@@ -407,12 +414,14 @@ func (g *vGen) lockOp() vOp {
 	}
 	if g.profile == 9 { // wild: every flag bit (less-lock-version, reverse-key, keep-alive, tree lock, from-aof, …) except the millisecond
 		// units (real time) and require-ack (needs the ack machinery); judged for crashes and hangs only
+		// (also not the journal-at-once expiry flags 0x0100 / 0x1000: this instance's Aof is not initialised the way a server's is, and a
+		// rotation + compaction goroutine started from here is not the engine under test)
 		o.flag = r.Intn(256)
 		o.tflag = r.Intn(65536) &^ (0x0400 | 0x1000)
-		o.eflag = r.Intn(65536) &^ 0x0400
+		o.eflag = r.Intn(65536) &^ (0x0400 | 0x0100 | 0x1000)
 		if r.Intn(2) == 0 { // few bits at a time as well
 			o.tflag = 1 << uint(r.Intn(16)) &^ (0x0400 | 0x1000)
-			o.eflag = 1 << uint(r.Intn(16)) &^ 0x0400
+			o.eflag = 1 << uint(r.Intn(16)) &^ (0x0400 | 0x0100 | 0x1000)
 			o.flag = []int{0, 0, 1, 2, 8, 16}[r.Intn(6)]
 			if r.Intn(3) == 0 {
 				o.tflag |= 0x0200
@@ -624,7 +633,9 @@ func vEngineRun(t *testing.T, mode string, profileOf func(i int) int, opsPer int
 			return ks.holds[r.Intn(len(ks.holds))], v.db.currentTime, true
 		}
 		v.base = v.counters()
+		v.rmu.Lock()
 		v.onReply = x.mon.onReply
+		v.rmu.Unlock()
 		now0 := v.db.currentTime
 		bad := ""
 		done := make(chan struct{})
@@ -671,11 +682,15 @@ func vEngineRun(t *testing.T, mode string, profileOf func(i int) int, opsPer int
 		}
 		x.mon.flush()
 		// let the dead wheel entries of this sequence be swept, then every key record must be gone again
+		v.rmu.Lock()
 		v.onReply = nil
+		v.rmu.Unlock()
 		for i := 0; i < 18; i++ {
 			v.tick()
 		}
+		v.rmu.Lock()
 		v.replies = v.replies[:0]
+		v.rmu.Unlock()
 		if kc := v.counters().KeyCount; kc != keyCount0 {
 			out.monitor("C17:keycount-after-drain", fmt.Sprintf("KeyCount is %d (baseline %d) after every hold was released, every waiter answered and 18 s passed", kc, keyCount0), map[string]string{"ops": line})
 			keyCount0 = kc
